@@ -891,10 +891,12 @@ package objects
 // completion is only requested when nothing is outstanding: no pending ask, no real allocation (and, when asks are
 // removed, no placeholder allocation and not already completing or failing)
 //@ func (sa *Application) removeAsksInternal(allocKey string, detail si.EventRecord_ChangeDetail) (n int)
-//@   props C10
+//@   props C10 C03
 //@   sweep
 //@   mode nopanic=off
 //@   at[nothingleft] call objects.Application.HandleApplicationEvent#1: assert arg1 == CompleteApplication && appZero(sa) && appState(sa) != "Completing" && appState(sa) != "Failing"
+//@   at[queuepending:C03] call objects.Queue.decPendingResource#1: assert arg0 == sa.queue && (allocKey == "" ==> arg1 == old(sa.pending)) && (allocKey != "" ==> ((old(sa.requests[allocKey]) != nil && !old(sa.requests[allocKey].allocated)) ? arg1 == old(sa.requests[allocKey].allocatedResource) : arg1 == nil))
+//@   at[apppending:C03] call objects.Queue.decPendingResource#1: assert (allocKey == "" ==> (forall t Key :: rv(sa.pending, t) == 0)) && (allocKey != "" && arg1 != nil ==> (forall t Key :: rv(sa.pending, t) == clamp64(old(rv(sa.pending, t)) - rv(arg1, t)))) && (allocKey != "" && arg1 == nil ==> sa.pending == old(sa.pending))
 //@   ensures[completes] old(len(sa.requests)) != 0 && appZero(sa) && old(appState(sa)) != "Completing" && old(appState(sa)) != "Failing" && noPlaceholders(sa) ==> ncalls(objects.Application.HandleApplicationEvent) == 1
 
 // the converse direction of the completion rule needs to know what "no placeholder allocations" means
@@ -957,6 +959,11 @@ package objects
 //@   sweep
 //@   mode nopanic=off
 //@   at[fits] call objects.Queue.GetApplication#1: assert fitsHR(qpc.preemptableResource, victim.allocatedResource) && victimAlloc == victim.allocatedResource
+//@   at[tracked] call objects.Queue.IncPreemptingResource#1: assert arg0 == qpc.queue && arg1 == victim.allocatedResource && victim.preempted && !victim.released
+//@   loop 3: exhaustive
+//@   loop 3: each (err == nil) == (ncalls(objects.Queue.IncPreemptingResource) == iter(ncalls(objects.Queue.IncPreemptingResource)) + 1)
+//@   loop 3: each ncalls(objects.Queue.IncPreemptingResource) <= iter(ncalls(objects.Queue.IncPreemptingResource)) + 1
+//@   at[announced] call objects.Application.notifyRMAllocationReleased#1: assert arg0 == app && arg1 == victims
 
 // ================================================================ C16: queue removal
 
@@ -1157,3 +1164,34 @@ package objects
 //@   at[up] call objects.Queue.findPreemptionFenceRoot#1: assert arg0 == sq.parent && arg1 == priorityMap && arg2 == askPrio(sq, old(currentPriority)) && arg3 == askResource && priorityMap[sq.QueuePath] == askPrio(sq, old(currentPriority))
 //@   ensures[recorded] sq != nil && ncalls(objects.Queue.findPreemptionFenceRoot) == 0 ==> root == sq && priorityMap[sq.QueuePath] == askPrio(sq, old(currentPriority))
 //@   ensures[nil] sq == nil ==> root == nil
+
+// the running count follows the life cycle: entering Running from another state counts the application once on its own
+// queue (and, through incRunningApps, on every ancestor); leaving Running for another state un-counts it once; a
+// Running -> Running self transition does neither
+//@ func callbacks$calls(objects.Queue.incRunningApps)(ctx context.Context, event *fsm.Event)
+//@   props C11
+//@   sweep
+//@   mode nopanic=off
+//@   at[own] call objects.Queue.incRunningApps#1: assert arg0 == asptr(event.Args[0], Application).queue && arg1 == asptr(event.Args[0], Application).ApplicationID
+//@   ensures[once] event.Src != "Running" ==> ncalls(objects.Queue.incRunningApps) == 1
+//@   ensures[self] event.Src == "Running" ==> ncalls(objects.Queue.incRunningApps) == 0
+
+//@ func callbacks$calls(objects.Queue.decRunningApps)(ctx context.Context, event *fsm.Event)
+//@   props C11
+//@   sweep
+//@   mode nopanic=off
+//@   at[own] call objects.Queue.decRunningApps#1: assert arg0 == asptr(event.Args[0], Application).queue
+//@   ensures[once] event.Dst != "Running" ==> ncalls(objects.Queue.decRunningApps) == 1
+//@   ensures[self] event.Dst == "Running" ==> ncalls(objects.Queue.decRunningApps) == 0
+
+// a new (or replaced, still outstanding) ask moves the pending total of the application and of every queue on its path
+// by exactly its size minus the size of the outstanding ask it replaces; a refused ask leaves no trace
+//@ spec replacedAsk(sa *Application, ask *Allocation, t Key) int = (sa.requests[ask.allocationKey] != nil && !sa.requests[ask.allocationKey].allocated) ? rv(sa.requests[ask.allocationKey].allocatedResource, t) : 0
+//@ func (sa *Application) AddAllocationAsk(ask *Allocation) (err error)
+//@   props C03 C13
+//@   sweep
+//@   mode nopanic=off
+//@   at[queuepending] call objects.Queue.incPendingResource#1: assert arg0 == sa.queue && arg1 == delta && (forall t Key :: rv(delta, t) == clamp64(rv(ask.allocatedResource, t) - old(replacedAsk(sa, ask, t))))
+//@   at[apppending] call objects.Queue.incPendingResource#1: assert forall t Key :: rv(sa.pending, t) == clamp64(old(rv(sa.pending, t)) + rv(delta, t))
+//@   ensures[booked] err == nil ==> ncalls(objects.Queue.incPendingResource) == 1
+//@   ensures[refused] err != nil ==> ncalls(objects.Queue.incPendingResource) == 0 && ncalls(objects.Application.addAllocationAskInternal) == 0 && sa.pending == old(sa.pending)
